@@ -1,14 +1,16 @@
 SPECIFICATION TSpec
 CONSTANTS
   Sess = {"s1","s2","s3"}
-  Reqs = {"r1","r2","r3"}
+  Reqs = {"r1","r2","r3","d1","d2","d3"}
   Gets = {"g1","g2","g3","g4","g5","g6","g7","g8","g9","g10","g11","g12","g13","g14","g15","g16"}
   Cfgs <- TraceCfgs
   MaxEmit = 40
   MaxSreq = 40
   MaxSa = 40
+  MaxBc = 40
+  DupOf <- TraceDupOf
   Gates = TRUE
 CONSTRAINT TMark
-INVARIANTS ResumeExact IdsDense IdStable StoreBeforeDeliver CompleteAtEnd ResponseOnOwnExchange NestedRouting NoCrossSession LockDiscipline
+INVARIANTS ResumeExact IdsDense IdStable StoreBeforeDeliver CompleteAtEnd ResponseOnOwnExchange NestedRouting NoCrossSession LockDiscipline IdUnique
 POSTCONDITION TAccepted
 CHECK_DEADLOCK FALSE
